@@ -394,6 +394,16 @@ def r2_cst(a, tier):
                     rep.fail(astc.methods[mname].qualname, f'{mname}({_kind(x)},{_kind(y)})',
                              f'AST.{mname}: current {_shape(x)} + node {_shape(y)} -> {_shape(got)}, documented {_shape(want)}',
                              astc.methods[mname].loc)
+    # AST._define declares the missing keys (None / []) and keeps what is bound
+    if '_define' in amethods:
+        for store in ({}, {'n': e1}, {'l': [e1]}):
+            got = _run_ast_define(ev, amethods, store, ['n', 'k'], ['l', 'm'])
+            want = {'n': store.get('n'), 'k': None, 'l': store.get('l', []), 'm': []}
+            okd = got is not None and {k: _shape(v) for k, v in got.items()} == {k: _shape(v) for k, v in want.items()}
+            rep.add({'fn': 'AST._define', 'bound_before': {k: _shape(v) for k, v in store.items()}, 'after': None if got is None else {k: _shape(v) for k, v in got.items()}, 'ok': okd})
+            if not okd:
+                rep.fail(astc.methods['_define'].qualname, f'_define:{sorted(store)}', f'AST._define(["n","k"], ["l","m"]) on {store} gives {got}; required {want} '
+                         f'(names that did not match are None / [], bound names keep their value)', astc.methods['_define'].loc)
     # nameset/nameadd use the last node
     for m, target in (('nameset', '_set'), ('nameadd', '_setlist')):
         fn = st.methods.get(m)
@@ -408,27 +418,36 @@ def r2_cst(a, tier):
 
     from ..minieval import Unsupported
     from ..modelinterp import Hook, ModelInterp, Stub
+    def _cstadd(cur, node):
+        # cstadd of appendix A: None -> node; open list -> element added; anything else -> two-element open list
+        if cur is None:
+            return node
+        if isinstance(cur, list) and not isinstance(cur, CL):
+            return [*cur, node]
+        return [cur, node]
+
     for q in (f'{CTX}.closure', f'{CTX}.positive_closure'):
-        # interpreted on a stand-in context: the element matches (cst := e1), repeat() adds e2; the result must be a
-        # closedlist holding [e1, e2] and be the scope's cst when the scope ends
+        # interpreted on a stand-in context: the element matches (cst := e1), repeat() adds e2 the way state.append does; the result
+        # must be a closedlist holding [e1, e2] and be the scope's cst when the scope ends - also when e1 is itself an open list
         fn = a.p.func(q)
-        e1, e2 = Elem(41), Elem(42)
-        me = Stub(CTX, cst=None)
-        nullctx = Hook(lambda *_a, **_k: contextlib.nullcontext())
-        me._attrs.update(statescope=nullctx, optional=nullctx, option=nullctx,
-                         expcall=Hook(lambda *_a, me=me: me._attrs.__setitem__('cst', e1)),
-                         repeat=Hook(lambda *_a, me=me, **_k: me._attrs.__setitem__('cst', [*me._attrs['cst'], e2])))
-        it = ModelInterp(a, {'closedlist': Hook(CL)})
-        try:
-            got = it.call_fn(fn, [me, Hook(lambda *_a: None)])
-        except Unsupported as e:
-            raise AnalysisError(f'cannot interpret {q}: {e}') from e
-        ok = isinstance(got, CL) and list(got) == [e1, e2] and me._attrs.get('cst') is got
-        rep.add({'fn': q, 'result': _shape(got), 'scope_cst_is_result': me._attrs.get('cst') is got, 'ok': ok})
-        if not ok:
-            rep.fail(q, 'closure-not-closed', f'with a first element e41 and repeat() adding e42 the repetition returns {_shape(got)} and leaves '
-                     f'the scope cst {_shape(me._attrs.get("cst"))}; required: the same closedlist C[e41,e42] (an open list would be spliced '
-                     f'into the enclosing sequence)', fn.loc)
+        for e1 in (Elem(41), [Elem(1), Elem(2)]):
+            e2 = Elem(42)
+            me = Stub(CTX, cst=None)
+            nullctx = Hook(lambda *_a, **_k: contextlib.nullcontext())
+            me._attrs.update(statescope=nullctx, optional=nullctx, option=nullctx,
+                             expcall=Hook(lambda *_a, me=me, e1=e1: me._attrs.__setitem__('cst', e1)),
+                             repeat=Hook(lambda *_a, me=me, e2=e2, **_k: me._attrs.__setitem__('cst', _cstadd(me._attrs['cst'], e2))))
+            it = ModelInterp(a, {'closedlist': Hook(CL)})
+            try:
+                got = it.call_fn(fn, [me, Hook(lambda *_a: None)])
+            except Unsupported as e:
+                raise AnalysisError(f'cannot interpret {q}: {e}') from e
+            ok = isinstance(got, CL) and len(got) == 2 and got[0] is e1 and got[1] is e2 and me._attrs.get('cst') is got
+            rep.add({'fn': q, 'first_element': _shape(e1), 'result': _shape(got), 'scope_cst_is_result': me._attrs.get('cst') is got, 'ok': ok})
+            if not ok:
+                rep.fail(q, f'closure-not-closed:{_shape(e1)}', f'with a first element {_shape(e1)} and repeat() adding e42 the repetition returns {_shape(got)} and '
+                         f'leaves the scope cst {_shape(me._attrs.get("cst"))}; required: the same closedlist C[first, e42] (an open list would be '
+                         f'spliced into the enclosing sequence; an unwrapped first element that is a list absorbs the later ones)', fn.loc)
     fn = a.p.func(f'{CTX}.empty')
     ok = any(isinstance(n, ast.Call) and dotted(n.func) == 'closedlist' for n in walk_no_defs(fn.node)) and any(
         isinstance(n, ast.Call) and norm(n.func) == 'self.state.append' for n in walk_no_defs(fn.node))
@@ -510,6 +529,37 @@ def _run_ast_set(ev, amethods, mname, store: dict, node):
     sub = MiniEval(dict(ev.globals), calls={'super': lambda: '<super>'}, methods=methods)
     sub.call_function(amethods[mname], [o, 'k', node])
     return data.get('k')
+
+
+def _run_ast_define(ev, amethods, store: dict, keys, list_keys):
+    """Interpret AST._define on a dict-like checker object."""
+    data = dict(store)
+
+    class A(Obj):
+        def __contains__(self, k):
+            return k in data
+
+    o = A({})
+
+    def methods(recv, name, args, kwargs):
+        if recv == '<super>' and name == '__setitem__':
+            data[args[0]] = args[1]
+            return None
+        if recv is o and name == '__setitem__':
+            data[args[0]] = args[1]
+            return None
+        if recv is o and name == '_safekey':
+            return args[0]
+        if recv is o and name == 'setdefault':
+            return data.setdefault(*args)
+        return NotImplemented
+
+    sub = MiniEval(dict(ev.globals), calls={'super': lambda: '<super>'}, methods=methods)
+    try:
+        sub.call_function(amethods['_define'], [o, keys], {'list_keys': list_keys})
+    except Unsupported:
+        return None
+    return data
 
 
 def _is_result_node(fn, e) -> bool:
@@ -771,6 +821,16 @@ def r5_state_stack(a, tier):
         if isinstance(recv, Cur) and name == 'goto':
             object.__setattr__(recv, 'pos', args[0])
             return None
+        if isinstance(recv, AstM) and name == '_define':
+            # what AST._define does (decided by R2): declare the missing keys
+            for k in (kwargs.get('list_keys') or (args[1] if len(args) > 1 else None) or []):
+                recv.setdefault(k, [])
+            for k in args[0]:
+                recv.setdefault(k, None)
+            return None
+        if isinstance(recv, AstM) and name == 'update':
+            dict.update(recv, *args)
+            return None
         return NotImplemented
 
     def fresh():
@@ -835,6 +895,36 @@ def r5_state_stack(a, tier):
             rep.fail(f'{SS}.merge', 'merge', f'after push(), an element, a name, a cut and an alert in the inner frame at position 9, merge() '
                      f'leaves the enclosing frame as {got}; required pos 9, CST [e51,e52] (spliced), names of the inner frame, cutseen '
                      f'False (a cut is not handed on by merge), one alert', a.p.func(f'{SS}.merge').loc)
+        # -- merge of a frame that holds two elements: spliced, not nested
+        it, st = fresh()
+        base = top(it, st)
+        call(it, base, 'append', e1)
+        child = call(it, st, 'push')
+        e3 = Elem(53)
+        call(it, child, 'append', e2)
+        call(it, child, 'append', e3)
+        call(it, st, 'merge')
+        got = snap(top(it, st))
+        ok = got['cst'] == 'O[e51,e52,e53]' and _shape(top(it, st)._attrs['last_node']) == 'O[e52,e53]'
+        rep.add({'case': 'push(); two elements; merge()', 'enclosing_cst': got['cst'], 'last_node': _shape(top(it, st)._attrs['last_node']), 'ok': ok})
+        if not ok:
+            rep.fail(f'{SS}.merge', 'merge-splices', f'after push(), two elements e52 e53 and merge() the enclosing CST is {got["cst"]} with last node '
+                     f'{_shape(top(it, st)._attrs["last_node"])}; required [e51,e52,e53] (the inner CST spliced) and last node [e52,e53] (the value a '
+                     f'name around the block binds)', a.p.func(f'{SS}.merge').loc)
+        # -- define() declares keys and keeps what is bound already
+        it, st = fresh()
+        base = top(it, st)
+        base._attrs['ast']['n'] = e1
+        try:
+            call(it, base, 'define', ['n', 'k'], ['l'])
+            names = dict(base._attrs['ast'])
+            ok = names.get('n') is e1 and 'k' in names and names['k'] is None and names.get('l') == []
+        except Unsupported as e:
+            names, ok = f'not interpretable: {e}', None
+        rep.add({'case': 'define([n, k], [l]) with n bound', 'names_after': str(names), 'ok': ok})
+        if ok is False:
+            rep.fail('tatsu.contexts.state.ParseState.define', 'define', f'define(["n","k"], ["l"]) on a frame where n is bound leaves the names {names}; '
+                     f'required: n keeps its value, k is None, l is []', a.p.func('tatsu.contexts.state.ParseState.define').loc)
         # -- new + pop
         it, st = fresh()
         base = top(it, st)
@@ -993,6 +1083,11 @@ def r7_what_a_frame_keeps(a, tier):
             if not o <= ok_ret:
                 rep.fail(f.qualname, f'keeps:return:{"+".join(sorted(o))}', f'{f.qualname} ({kind}) closes its frame with {sorted(o)} on a normal exit; a '
                          f'{kind} may only use {sorted(ok_ret)} there', f.loc)
+        if kind == 'choice':
+            for o in rets:
+                if 'merge' not in o:
+                    rep.fail(f.qualname, 'keeps:choice-succeeds-without-option', f'{f.qualname} has a normal exit on which no option was merged '
+                             f'(closing operations {sorted(o)}): a choice whose options all failed succeeds', f.loc)
         if need_merge and not any('merge' in o for o in rets):
             rep.fail(f.qualname, 'keeps:never-merges', f'{f.qualname} ({kind}) never merges its frame on a normal exit: what the body matched is lost', f.loc)
         for o in fails:
@@ -1134,6 +1229,8 @@ def r7b_negative_lookahead(a, tier):
     return rep
 
 
+from .c01_contracts import r9_engine_contracts, r10_model_values  # noqa: E402
+
 RULES = [r_chain, r1_frames, r1b_semantic_failures, r1c_control_containment, r2_cst, r3_ordered_choice, r4_progress, r5_state_stack,
          r6_defines_cover_operands, r7_what_a_frame_keeps, r7b_negative_lookahead,
-         r8_leaf_protocol]
+         r8_leaf_protocol, r9_engine_contracts, r10_model_values]
